@@ -350,6 +350,8 @@ def loop_carried_names(loop, store_ok=(), distinct_calls=()):
                         reads(t.slice, definite)  # a store into the designated write-only accumulator
                     elif isinstance(t, ast.Subscript) and ast.unparse(t.value) in cells:
                         pass  # X[i] = ... where iteration i is the only one touching cell i of X
+                    elif isinstance(t, ast.Subscript) and isinstance(t.value, ast.Name) and t.value.id in targets:
+                        reads(t.slice, definite)  # a store INTO the element of this iteration (elements of the sequence are distinct objects)
                     else:
                         carried.add("<store to %s>" % ast.unparse(t)[:30])
             elif isinstance(st, ast.AugAssign):
